@@ -8,7 +8,10 @@ package main
 import (
 	"bufio"
 	"bytes"
+	"compress/gzip"
 	"crypto/sha256"
+	"crypto/tls"
+	"encoding/pem"
 	"fmt"
 	"io"
 	"math/rand"
@@ -17,6 +20,7 @@ import (
 	"net/http/httptest"
 	"net/url"
 	"os"
+	"path/filepath"
 	"sort"
 	"strconv"
 	"strings"
@@ -364,6 +368,7 @@ func genResp(r *rand.Rand, method string, wire bool) *respT {
 	if wire {
 		rs.Hdrs = append(rs.Hdrs, hdr{"Content-Type", "application/x-test"})
 	}
+	gz := wire && r.Intn(4) == 0
 	if r.Intn(4) == 0 && !wire {
 		switch r.Intn(5) {
 		case 0:
@@ -380,6 +385,22 @@ func genResp(r *rand.Rand, method string, wire bool) *respT {
 	}
 	if method != "HEAD" && rs.Status != 204 && rs.Status != 304 {
 		rs.Body = genBody(r)
+		if gz && len(rs.Body) > 0 {
+			// a really compressed reply: must reach the client compressed, byte for byte, with its
+			// Content-Encoding (a transport that negotiated gzip on its own would unpack it)
+			var keep []hdr
+			for _, kv := range rs.Hdrs {
+				if kv.K != "Content-Encoding" {
+					keep = append(keep, kv)
+				}
+			}
+			rs.Hdrs = append(keep, hdr{"Content-Encoding", "gzip"})
+			var zb bytes.Buffer
+			zw := gzip.NewWriter(&zb)
+			zw.Write(bytes.Repeat(rs.Body[:min(len(rs.Body), 200)], 1+len(rs.Body)/200))
+			zw.Close()
+			rs.Body = zb.Bytes()
+		}
 	}
 	return rs
 }
@@ -543,9 +564,15 @@ type loop struct {
 	fabLn    net.Listener
 	tgt      *route.Target
 	chunkRng *rand.Rand
+	px       *proxy.HTTPProxy
 }
 
-func newLoop() *loop {
+// newLoop starts the loopback pair.  withTLS: the upstream is an HTTPS server (httptest's
+// certificate, valid for 127.0.0.1 and example.com; made a trusted root for this process through
+// SSL_CERT_FILE so that fabio's verifying transports accept it) and the proxy is wired exactly as
+// main.go's newHTTPProxy wires it: Transport and InsecureTransport from transport.NewTransport,
+// per-target transports from route.addTarget.
+func newLoop(withTLS bool, certDir string) *loop {
 	l := &loop{}
 	var err error
 	if l.upLn, err = net.Listen("tcp", "127.0.0.1:0"); err != nil {
@@ -562,6 +589,16 @@ func newLoop() *loop {
 		rs := l.resp
 		infos := l.infos
 		l.mu.Unlock()
+		if up := r.Header.Get("Upgrade"); up == "websocket" || up == "Websocket" {
+			// complete the handshake and end the tunnel: only the first bytes the upstream was sent matter here
+			if hj, ok := w.(http.Hijacker); ok {
+				if c, _, err := hj.Hijack(); err == nil {
+					io.WriteString(c, "HTTP/1.1 101 Switching Protocols\r\nUpgrade: websocket\r\nConnection: Upgrade\r\n\r\n")
+					c.Close()
+				}
+			}
+			return
+		}
 		for _, in := range infos { // e.g. 103 Early Hints with Link headers, then the final response
 			for _, kv := range in.Hdrs {
 				w.Header().Add(kv.K, kv.V)
@@ -588,14 +625,79 @@ func newLoop() *loop {
 			rest = rest[n:]
 		}
 	})}
-	go up.Serve(l.upLn)
-	p := &proxy.HTTPProxy{Transport: transport.NewTransport(nil), Lookup: func(*http.Request) *route.Target {
-		l.mu.Lock()
-		defer l.mu.Unlock()
-		return l.tgt
-	}}
-	go (&http.Server{Handler: p}).Serve(l.fabLn)
+	if withTLS {
+		ts := httptest.NewUnstartedServer(up.Handler)
+		ts.Listener.Close()
+		ts.Listener = l.upLn
+		ts.StartTLS()
+		pemBytes := pem.EncodeToMemory(&pem.Block{Type: "CERTIFICATE", Bytes: ts.Certificate().Raw})
+		cf := filepath.Join(certDir, "c07-upstream-root.pem")
+		if err := os.WriteFile(cf, pemBytes, 0o644); err != nil {
+			panic(err)
+		}
+		os.Setenv("SSL_CERT_FILE", cf) // read once, at the first verification in this process
+		os.Setenv("SSL_CERT_DIR", certDir)
+	} else {
+		go up.Serve(l.upLn)
+	}
+	// main.go:232-233
+	l.px = &proxy.HTTPProxy{Transport: transport.NewTransport(nil), InsecureTransport: transport.NewTransport(&tls.Config{InsecureSkipVerify: true}),
+		Lookup: func(*http.Request) *route.Target {
+			l.mu.Lock()
+			defer l.mu.Unlock()
+			return l.tgt
+		}}
+	go (&http.Server{Handler: l.px}).Serve(l.fabLn)
 	return l
+}
+
+// tableTarget lets fabio's own route code (route.NewTable -> addTarget) build the target, so that
+// the per-target transport is the one the product builds.
+func tableTarget(scheme, addr, tquery string, opts map[string]string) (*route.Target, string, error) {
+	var kv []string
+	for _, k := range []string{"strip", "prepend", "host", "tlsskipverify", "proto"} {
+		if v := opts[k]; v != "" {
+			kv = append(kv, k+"="+v)
+		}
+	}
+	u := scheme + "://" + addr + "/"
+	if tquery != "" {
+		u += "?" + tquery
+	}
+	text := "route add svc / " + u
+	if len(kv) > 0 {
+		text += " opts \"" + strings.Join(kv, " ") + "\""
+	}
+	tbl, err := route.NewTable(bytes.NewBufferString(text))
+	if err != nil {
+		return nil, text, err
+	}
+	for _, rs := range tbl {
+		for _, rt := range rs {
+			if len(rt.Targets) > 0 {
+				return rt.Targets[0], text, nil
+			}
+		}
+	}
+	return nil, text, fmt.Errorf("no target")
+}
+
+func gzipReply(rs *respT) {
+	if len(rs.Body) == 0 {
+		return
+	}
+	var keep []hdr
+	for _, kv := range rs.Hdrs {
+		if kv.K != "Content-Encoding" {
+			keep = append(keep, kv)
+		}
+	}
+	rs.Hdrs = append(keep, hdr{"Content-Encoding", "gzip"})
+	var zb bytes.Buffer
+	zw := gzip.NewWriter(&zb)
+	zw.Write(bytes.Repeat(rs.Body[:min(len(rs.Body), 200)], 1+len(rs.Body)/200))
+	zw.Close()
+	rs.Body = zb.Bytes()
 }
 
 func (l *loop) roundTrip(raw []byte, tgt *route.Target, rs *respT, method string, infos ...respT) (*result, error) {
@@ -825,7 +927,7 @@ func main() {
 	}
 
 	// ---- 4. loopback sample: real sockets, fabio's transport, what is on the wire ----
-	lp := newLoop()
+	lp := newLoop(false, run.Out)
 	lp.chunkRng = rand.New(rand.NewSource(run.Seed + 7))
 	for i := 0; i < run.Scale(160, 2500); i++ {
 		q := genReq(r, true)
@@ -950,6 +1052,167 @@ func main() {
 		run.Add("forward-loopback-1xx", vh.App("CFwd1xx", coqOpts(&o2), coqReq(q, host, parsed), coqUp(res.up), coqInfos(infos), coqResp(rs.Status, flattenList(rs.Hdrs), rs.Body),
 			coqInfos(res.clientInfos), coqResp(res.code, res.clientHdrs, res.clientBody)), sm)
 	}
+	// ---- 6. websocket upgrade: the request line the upstream connection is sent ----
+	for i := 0; i < run.Scale(120, 1500); i++ {
+		q := genReq(r, true)
+		q.Method, q.Body, q.Chunked = "GET", nil, false
+		p, qs, _ := strings.Cut(q.Target, "?")
+		if i%2 == 0 {
+			p = pick(r, []string{"/strip/a%2Fb", "/strip/%41", "/a%2Fb", "/str%69p/a%2Fb", "/strip%2Fx", "/ws/a%2Fb/c", "/strip/x%20y", "/a^b%2Fc", "/strip/!$&'()*,="})
+		}
+		q.Target = p
+		if qs != "" { // a lone '?' is dropped on this path (the target URL is built without ForceQuery): not generated
+			q.Target += "?" + qs
+		}
+		var hs []hdr
+		for _, kv := range q.Hdrs {
+			switch strings.ToLower(kv.K) {
+			case "connection", "upgrade", "te", "keep-alive", "proxy-connection":
+			default:
+				hs = append(hs, kv)
+			}
+		}
+		q.Hdrs = append(hs, hdr{"Upgrade", pick(r, []string{"websocket", "websocket", "Websocket"})}, hdr{"Connection", "Upgrade"}, hdr{"Sec-WebSocket-Key", "dGhlIHNhbXBsZSBub25jZQ=="}, hdr{"Sec-WebSocket-Version", "13"})
+		o := genOpts(r, q.Target)
+		if i%2 == 0 {
+			o.Strip = pick(r, []string{"", "/strip", "/strip", "/a", "/ws"})
+			o.Prepend = pick(r, []string{"", "", "/pre", "pre", "/a b"})
+		}
+		o.THost = lp.upLn.Addr().String()
+		raw := q.wire(r)
+		pre, err := parseReq(raw)
+		if err != nil {
+			run.Exclude("net/http rejects the request before fabio sees it")
+			continue
+		}
+		parsed, host := flatten(pre.Header), pre.Host
+		res, err := lp.roundTrip(raw, mkTarget(o), &respT{Status: 200}, "GET")
+		id := run.NextID()
+		if err != nil {
+			run.Violation(id, "loopback websocket: no well-formed response reached the client: "+err.Error(), sampleOf(q, o, nil))
+			continue
+		}
+		if res.code == 400 && res.up == nil {
+			run.Exclude("net/http server rejects the request before fabio sees it")
+			continue
+		}
+		o2 := *o
+		o2.THost = "upstream.test:80"
+		upc := vh.None
+		if res.up != nil {
+			res.up.Host = strings.ReplaceAll(res.up.Host, lp.upLn.Addr().String(), "upstream.test:80")
+			upc = vh.Some(fmt.Sprintf("(%s, %s, %s)", vh.HxS(res.up.Method), vh.HxS(res.up.Target), vh.HxS(res.up.Host)))
+		}
+		sm := sampleOf(q, &o2, res)
+		sm["websocket"] = true
+		run.Add("websocket-loopback", vh.App("CWs", coqOpts(&o2), coqReq(q, host, parsed), upc), sm)
+	}
+	// ---- 7. HTTPS upstream over real sockets: every transport fabio selects between ----
+	// default (p.Transport), tlsskipverify=true (p.InsecureTransport), host=<name> on https (the
+	// per-target transport route.addTarget builds); targets built by fabio's own route code.
+	lt := newLoop(true, run.Out)
+	lt.chunkRng = rand.New(rand.NewSource(run.Seed + 11))
+	checkTr := func(which string, rt http.RoundTripper) {
+		tr, ok := rt.(*http.Transport)
+		if !ok || tr == nil {
+			return
+		}
+		if !tr.DisableCompression {
+			run.Violation(run.NextID(), "transport configuration: "+which+" negotiates compression on its own (DisableCompression not set): the upstream is sent an Accept-Encoding the client did not send and gzip replies are unpacked", map[string]interface{}{"transport": which})
+		}
+	}
+	checkTr("HTTPProxy.Transport (main.go: transport.NewTransport(nil))", lt.px.Transport)
+	checkTr("HTTPProxy.InsecureTransport (main.go: transport.NewTransport(InsecureSkipVerify))", lt.px.InsecureTransport)
+	selections := []struct {
+		name string
+		opts map[string]string
+	}{
+		{"default", map[string]string{}},
+		{"default-dst", map[string]string{"host": "dst"}},
+		{"insecure", map[string]string{"tlsskipverify": "true"}},
+		{"sni", map[string]string{"host": "example.com"}},
+		{"sni-insecure", map[string]string{"host": "example.com", "tlsskipverify": "true"}},
+		{"sni-other-name", map[string]string{"host": "other.example.org", "tlsskipverify": "true"}},
+	}
+	for i := 0; i < run.Scale(144, 1800); i++ {
+		sel := selections[i%len(selections)]
+		q := genReq(r, true)
+		if q.Method == "get" {
+			q.Method = "GET"
+		}
+		if (i/len(selections))%2 == 0 { // a client that names no encoding and no range
+			var hs []hdr
+			for _, kv := range q.Hdrs {
+				if k := strings.ToLower(kv.K); k != "accept-encoding" && k != "range" {
+					hs = append(hs, kv)
+				}
+			}
+			q.Hdrs = hs
+		} else if i%4 == 1 {
+			q.Hdrs = append(q.Hdrs, hdr{"Accept-Encoding", pick(r, []string{"gzip", "br", "gzip, deflate", "identity"})})
+		}
+		opts := map[string]string{"strip": pick(r, []string{"", "", "/strip", "/api", "/a"}), "prepend": pick(r, []string{"", "", "/pre"})}
+		for k, v := range sel.opts {
+			opts[k] = v
+		}
+		tq := pick(r, []string{"", "", "tq=1"})
+		tgt, text, err := tableTarget("https", lt.upLn.Addr().String(), tq, opts)
+		if err != nil {
+			run.Violation(run.NextID(), "route text rejected: "+err.Error(), text)
+			continue
+		}
+		if tgt.Transport != nil {
+			checkTr("Target.Transport (route.addTarget, opts "+sel.name+")", tgt.Transport)
+		}
+		o := &optsT{Strip: tgt.StripPath, Prepend: tgt.PrependPath, HostOpt: tgt.Host, TScheme: "https", THost: lt.upLn.Addr().String(), TQuery: tq}
+		rs := genResp(r, q.Method, true)
+		if rs.Status == 304 {
+			var keep []hdr
+			for _, kv := range rs.Hdrs {
+				if kv.K != "Content-Type" {
+					keep = append(keep, kv)
+				}
+			}
+			rs.Hdrs = keep
+		}
+		if i%3 != 2 && q.Method != "HEAD" && rs.Status != 204 && rs.Status != 304 {
+			if len(rs.Body) == 0 {
+				rs.Body = []byte("0123456789abcdef0123456789abcdef")
+			}
+			gzipReply(rs)
+		}
+		raw := q.wire(r)
+		pre, err := parseReq(raw)
+		if err != nil {
+			run.Exclude("net/http rejects the request before fabio sees it")
+			continue
+		}
+		parsed, host := flatten(pre.Header), pre.Host
+		res, err := lt.roundTrip(raw, tgt, rs, q.Method)
+		id := run.NextID()
+		if err != nil {
+			run.Violation(id, "loopback (https upstream, "+sel.name+"): no well-formed response reached the client: "+err.Error(), sampleOf(q, o, nil))
+			continue
+		}
+		if res.code == 400 && res.up == nil {
+			run.Exclude("net/http server rejects the request before fabio sees it")
+			continue
+		}
+		canon := func(s string) string { return strings.ReplaceAll(s, lt.upLn.Addr().String(), "upstream.test:80") }
+		o2 := *o
+		o2.THost = "upstream.test:80"
+		if res.up != nil {
+			res.up.Host = canon(res.up.Host)
+			for k := range res.up.Hdrs {
+				res.up.Hdrs[k].V = canon(res.up.Hdrs[k].V)
+			}
+		}
+		sm := sampleOf(q, &o2, res)
+		sm["wire"], sm["https_upstream"], sm["transport"], sm["route"] = true, true, sel.name, strings.ReplaceAll(text, lt.upLn.Addr().String(), "upstream.test:80")
+		sm["upstream_body_len"], sm["client_body_len"] = len(rs.Body), len(res.clientBody)
+		run.Add("forward-loopback-https-"+sel.name, vh.App("CFwd", "true", coqOpts(&o2), coqReq(q, host, parsed), coqUp(res.up), coqResp(rs.Status, flattenList(rs.Hdrs), rs.Body), coqResp(res.code, res.clientHdrs, res.clientBody)), sm)
+	}
+	os.Remove(filepath.Join(run.Out, "c07-upstream-root.pem"))
 	run.Finish(preamble, run.Scale(130, 400))
 }
 
